@@ -10,6 +10,7 @@ import (
 	"bytes"
 	"encoding/binary"
 	"io"
+	"math"
 	"os"
 	"path"
 	"strings"
@@ -46,6 +47,8 @@ func (h *NFSProcedureHandler) handleCreate(body io.Reader, reply *RPCReply, auth
 	newUID := authCtx.EffectiveUID
 	newGID := authCtx.EffectiveGID
 	var isExclusive bool
+	var setSize bool
+	var newSize uint64
 	if createHow == 0 || createHow == 1 {
 		sattr, err := decodeSattr3(body)
 		if err != nil {
@@ -61,6 +64,7 @@ func (h *NFSProcedureHandler) handleCreate(body io.Reader, reply *RPCReply, auth
 		if sattr.SetGID && authCtx.EffectiveUID == 0 {
 			newGID = sattr.GID
 		}
+		setSize, newSize = sattr.SetSize, sattr.Size
 	} else if createHow == 2 {
 		// M14: Use io.ReadFull for the 8-byte EXCLUSIVE verifier
 		var verf [8]byte
@@ -91,7 +95,27 @@ func (h *NFSProcedureHandler) handleCreate(body io.Reader, reply *RPCReply, auth
 		Gid:  newGID,
 	}
 
-	newNode, err := h.server.handler.Create(node, name, attrs)
+	// RFC 1813 3.3.8: CREATE never overwrites an existing object. GUARDED fails with EXIST,
+	// EXCLUSIVE takes the existing-file path below, and UNCHECKED reuses an existing regular
+	// file without touching its data unless the request sets a size.
+	var newNode *NFSNode
+	targetPath := path.Join(node.path, name)
+	if info, statErr := h.server.handler.fs.Lstat(targetPath); statErr == nil {
+		switch {
+		case isExclusive, createHow == 1, !info.Mode().IsRegular():
+			err = os.ErrExist
+		default:
+			if setSize && newSize <= uint64(math.MaxInt64) {
+				err = h.server.handler.fs.Truncate(targetPath, int64(newSize))
+				h.server.handler.attrCache.Invalidate(targetPath)
+			}
+			if err == nil {
+				newNode, err = h.server.handler.Lookup(targetPath)
+			}
+		}
+	} else {
+		newNode, err = h.server.handler.Create(node, name, attrs)
+	}
 	if err != nil {
 		// For EXCLUSIVE creates, if file already exists, return success
 		// (simplified idempotent behavior per RFC 1813 - full verifier comparison not implemented)
